@@ -13,6 +13,12 @@ status, fatal stop), step machine spec/Driver_MC.tla.
     reading of the text (DeclFile).  Diag_MC: the closed form used for bursts equals the n-fold recursion.
     Driver_MC_Wrap.cfg models the counters as coded (16 bit `Word`): TLC must find the status-0-after-65536-errors
     counterexample there (reported as information; it is the known defect of the pinned tree).
+    Driver_MC_Jump.cfg: the JUMP-ERROR DISCARD protocol (asmerr.c JmpErrors, asmpars.c SymbolAdder, option -Y): line
+    classes tjmp (TransientJumpErr: a short branch that is out of range only in pass 2, while its body shrinks) and
+    pjmp (out of range for good), with JmpErrors, Repass and -Y as explicit Diag/Driver state (WrJumpError,
+    LabelMoved, JumpStep; the pass loop runs as long as the model says, up to 6 passes) x -Y x -maxerrors x -Werror:
+    the clauses above with "reported" = written and not discounted, and NoDiscardWithoutY (without -Y every written
+    jump error stays counted).
 (G) Driver_Gen: transition cover of the option x counter x open-EXPECT state graph; for every "append line class"
     transition TLC prints the run (1-2 files) together with Outcome(opts, files): exit status, kept code files,
     summary counts, number of error / warning / fatal lines on the error channel.  Rendered in two dialects
@@ -24,8 +30,13 @@ status, fatal stop), step machine spec/Driver_MC.tla.
     operators with unbounded counters (classification, counters before each message, loop and unlink decisions,
     exit status).
 
+    Driver_Gen_Jump.cfg: cover of the jump family (1-2 files, <= 3 line classes, with / without -Y), rendered for 6502
+    and 68HC11 (targets that choose zero-page / direct addressing themselves), same report options, same comparison
+    (the channel counts include the error lines of intermediate passes, the summary and status follow the model).
+    quick: every one-file run + a seeded sample of the two-file runs (3000), thorough: all 24 k.
+
 Bounds / not covered: line classes are fixed representative lines (unknown mnemonic, `ds 0`, include of a missing
-file, ERROR/WARNING/FATAL); -Y (ThrowErrors deliberately discounts printed errors), +G, -l (listing to stdout
+file, ERROR/WARNING/FATAL); +G, -l (listing to stdout
 replaces the error channel), I/O errors (unwritable output, disk full) and message languages other than C are not
 exercised; at most 2 files and 2 passes in the model.  Renderer, tokeniser and comparison in Python are trusted.
 
@@ -37,7 +48,8 @@ Mutations of the real code (selftest/b218_mutants.py, scratch copies, all compil
 reported as VIOLATION by the quick tier: -Werror reclassification disabled; `return GlobErrFlag ? 2 : 0` -> 0;
 `unlink(OutName)` after errors removed; `exit(3)` -> `exit(2)`; -maxerrors test `>=` -> `>`; -w also swallowing
 errors; user WARNING counted as error; summary printing errors+warnings; GlobErrFlag set only for one-pass files
-(needs the `undef` class: error in pass 2); an EXPECTed error still counted.  Trace corruptions (counter, class,
+(needs the `undef` class: error in pass 2); an EXPECTed error still counted; the -Y guard of the jump-error discount
+turned into `ThrowErrors || ...` (discount without -Y), into "never" (no discount with -Y), JmpErrors never counted.  Trace corruptions (counter, class,
 kept flag, exit status, IfAsm/stale pointers at file_begin, CPU at pass_begin, a removed pass_begin) are rejected
 by Driver_Trace.
 """
@@ -152,9 +164,9 @@ def main(tier):
     model_checks(rep, tier)
 
     # (G) ---------------------------------------------------------------------------------------
-    with Phase("TLC Driver_Gen cover"):
-        cov = tlc.must(tlc.run("Driver_Gen", "Driver_Gen.cfg" if tier == "quick" else "Driver_Gen4.cfg", workers=1,
-                               timeout=1500, mem="8g"), "Driver_Gen")
+    with Phase("TLC Driver_Gen cover + jump cover"):
+        cov, covj = pmap(lambda c: tlc.must(tlc.run("Driver_Gen", c, workers=1, timeout=1500, mem="8g"), "Driver_Gen(%s)" % c),
+                         ["Driver_Gen.cfg" if tier == "quick" else "Driver_Gen4.cfg", "Driver_Gen_Jump.cfg"], workers=2)
     rep.model("Driver_Gen(cover)", cov)
     trs = [b for (tag, b) in cov.printed if tag == "TR"]
     if not trs:
@@ -196,8 +208,6 @@ def main(tier):
         rv["L"] = False
         jobs.append((t, make_job(t, rv, dialect, events="file,diag,stmt" if i < 6 else None), dialect))
     # the jump-error discard protocol (JmpErrors / -Y / Repass): its own cover, targets that size operands themselves
-    with Phase("TLC Driver_Gen jump cover"):
-        covj = tlc.must(tlc.run("Driver_Gen", "Driver_Gen_Jump.cfg", workers=1, timeout=1500, mem="8g"), "Driver_Gen(Jump)")
     rep.model("Driver_Gen(jump cover)", covj)
     jtrs = [b for (tag, b) in covj.printed if tag == "TR" and any(ln["k"] in ("tjmp", "pjmp") for f in b["files"] for ln in f)]
     if not jtrs:
